@@ -172,8 +172,8 @@ theorem addTxs_ok {n : Node} {ts : Nat} {h : String} {idx : Nat} {txid : Option 
   | none =>
     simp only [addTxs, hv] at hok ⊢
     simp only [apply_ite Prod.snd, ite_reject_eq_ok] at hok
-    obtain ⟨h1, h2, h3, h4, h4b, hok⟩ := hok
-    rw [if_neg h1, if_neg h2, if_neg h3, if_neg h4, if_neg h4b]
+    obtain ⟨h1, h2, h3, h4, h4b, h4c, hok⟩ := hok
+    rw [if_neg h1, if_neg h2, if_neg h3, if_neg h4, if_neg h4b, if_neg h4c]
     cases h5 : applyEvents n n.nextHeight evs with
     | none => rw [h5] at hok; cases hok
     | some n' =>
@@ -199,6 +199,8 @@ theorem finaliseOne_err {n : Node} {ts : Nat} {h : String} {count : Nat} {evs : 
   | none =>
     simp only [finaliseOne, hv] at he
     exfalso
+    split at he
+    · cases he
     split at he
     · cases he
     cases h5 : applyEvents n n.nextHeight evs with
@@ -228,6 +230,10 @@ theorem finaliseOne_ok {n : Node} {ts : Nat} {h : String} {count : Nat} {evs : L
     · cases hok
     rename_i hfin
     rw [if_neg hfin]
+    split at hok
+    · cases hok
+    rename_i hnps
+    rw [if_neg hnps]
     cases h5 : applyEvents n n.nextHeight evs with
     | none => rw [h5] at hok; cases hok
     | some n' =>
@@ -355,6 +361,34 @@ theorem addTxs_ok_noBlock {n : Node} {ts : Nat} {h : String} {idx : Nat} {txid :
     simp only [apply_ite Prod.snd, ite_reject_eq_ok] at hok
     obtain ⟨_, _, _, _, h4b, _⟩ := hok
     simpa using h4b
+
+/-- an accepted `addTxs` recorded no `set` of a row of the pending table -/
+theorem addTxs_ok_noPendingSet {n : Node} {ts : Nat} {h : String} {idx : Nat} {txid : Option String} {evs : List Ev}
+    {k : Option Nat} (hok : (n.addTxs ts h idx txid evs k).2 = .ok) : noPendingSet evs = true := by
+  cases hv : n.validateNextTx idx (normHash h n.nextHeight) n.nextHeight ts with
+  | some e' =>
+    simp only [addTxs, hv] at hok
+    cases hok
+  | none =>
+    simp only [addTxs, hv] at hok
+    simp only [apply_ite Prod.snd, ite_reject_eq_ok] at hok
+    obtain ⟨_, _, _, _, _, h4c, _⟩ := hok
+    simpa using h4c
+
+/-- an accepted `finaliseOne` recorded no `set` of a row of the pending table -/
+theorem finaliseOne_ok_noPendingSet {n : Node} {ts : Nat} {h : String} {count : Nat} {evs : List Ev}
+    (hok : (n.finaliseOne ts h count evs).2 = .ok) : noPendingSet evs = true := by
+  cases hv : n.validateNextTx count (normHash h n.nextHeight) n.nextHeight ts with
+  | some e' =>
+    simp only [finaliseOne, hv] at hok
+    cases hok
+  | none =>
+    simp only [finaliseOne, hv] at hok
+    split at hok
+    · cases hok
+    split at hok
+    · cases hok
+    · rename_i hnps; simpa using hnps
 
 /-- an accepted `finaliseOne` recorded only block-table rows, the hash-index row of its block and pool entries -/
 theorem finaliseOne_ok_finOnly {n : Node} {ts : Nat} {h : String} {count : Nat} {evs : List Ev}
